@@ -203,6 +203,11 @@ func runCheck(e *Engine, id, tier string, dir string) (*checkResult, error) {
 			}
 		}
 		sort.Strings(keys)
+		for k, msg := range e.orphans {
+			if strings.HasPrefix(k, f[0]+".") {
+				res.genErrs = append(res.genErrs, fmt.Sprintf("gen/%s: %s", k, msg))
+			}
+		}
 		for _, k := range keys {
 			ps.Blocks = append(ps.Blocks, &FuncContract{Name: k, Loops: map[int]*LoopContract{}, Props: map[string]bool{id: true}, Classes: f[1:]})
 		}
